@@ -1,5 +1,11 @@
 (* Ty/Sound.v — definitions for the SOUNDNESS half of property C03.  No proofs here.
 
+     nn                    a flag of the value typing: true = the environment (and what its functions
+                           return) holds NO nil pointer to a struct; then member access and method
+                           calls through *T receivers are in scope.  With nn = false nil pointers
+                           are values of type *T and those node shapes are out of scope (fetch
+                           reports "cannot fetch X from *T" - a message of the type class - for a
+                           nil receiver);
      vwf / fits / has_ty   value typing: a model value is a well-formed Go value (vwf: every number
                            has the representation of its kind, the contents of slices, maps and
                            structs have the declared element / field types, function values are
@@ -38,13 +44,15 @@ Definition unexported_member (te : tenv) (sn name : string) : bool :=
 Section ValueTyping.
 Variable te : tenv.                       (* struct declarations *)
 Variable ftab : string -> option ty.      (* function id -> Go type of that function value *)
+Variable nn : bool.                       (* true: no nil pointer to a struct anywhere *)
 
 (* struct values list their accessible members flat (promoted fields included), as the
    serialiser of the harness does: every exported field Go's selector rule finds is present and
    holds a value of the field's declared type *)
 Fixpoint vwf (v : value) {struct v} : Prop :=
   match v with
-  | VNil | VBool _ | VStr _ | VNilArr _ | VNilMap _ _ | VNilPtr _ | VOpaque _ => True
+  | VNil | VBool _ | VStr _ | VNilArr _ | VNilMap _ _ | VOpaque _ => True
+  | VNilPtr t => match t with TStruct _ => nn = false | _ => True end
   | VNum n => num_shape n = true
   | VArr e l =>
       (fix all (l : list value) : Prop :=
@@ -97,23 +105,23 @@ End ValueTyping.
 Definition env_struct (t : ty) : option string :=
   match t with TStruct sn => Some sn | TPtr (TStruct sn) => Some sn | _ => None end.
 
-Record env_ok (c : cconfig) (perm : TypesTable.table -> TypesTable.table) (ftab : string -> option ty)
+Record env_ok (c : cconfig) (perm : TypesTable.table -> TypesTable.table) (ftab : string -> option ty) (nn : bool)
               (T : ty) (sn : string) (env : value) : Prop := mkEnvOk {
   eo_struct : env_struct T = Some sn;
   eo_table : exists tb, cc_types c = Some tb /\ create_types_table (cc_te c) perm (EStruct T) = Some tb;
   eo_val : exists p fields, env = VStruct sn p fields /\ T = recv_ty sn p;
-  eo_wf : vwf (cc_te c) ftab env
+  eo_wf : vwf (cc_te c) ftab nn env
 }.
 
 (* closure contexts: one (collection, index) per enclosing builtin, typed by the checker's
    collections stack; every collection is a slice *)
-Definition ctx_ok (te : tenv) (ftab : string -> option ty) (ctx : list (value * Z)) (cols : list ty) : Prop :=
-  Forall2 (fun (p : value * Z) (col : ty) => (exists e, col = TSlice e) /\ has_ty te ftab (fst p) col) ctx cols.
+Definition ctx_ok (te : tenv) (ftab : string -> option ty) (nn : bool) (ctx : list (value * Z)) (cols : list ty) : Prop :=
+  Forall2 (fun (p : value * Z) (col : ty) => (exists e, col = TSlice e) /\ has_ty te ftab nn (fst p) col) ctx cols.
 
 (* the statement about one run *)
-Definition res_ok (te : tenv) (ftab : string -> option ty) (t : ty) (r : result) : Prop :=
+Definition res_ok (te : tenv) (ftab : string -> option ty) (nn : bool) (t : ty) (r : result) : Prop :=
   match r with
-  | Done v _ => has_ty te ftab v t
+  | Done v _ => has_ty te ftab nn v t
   | Stop er _ _ => is_type_err er = false
   end.
 
@@ -128,8 +136,16 @@ Definition s_pair (l r : ty) : bool := (s_num l && s_num r) || (s_str l && s_str
 Definition s_iface (t : ty) : bool := match t with TIface => true | _ => false end.
 
 (* reflect.Zero(t).Interface() as the model computes it (zero_of) has type t *)
-Definition zero_ok (t : ty) : bool :=
-  match t with TBool | TNum _ | TString | TSlice _ | TMap _ _ | TPtr _ | TIface => true | _ => false end.
+Definition zero_ok (nn : bool) (t : ty) : bool :=
+  match t with
+  | TBool | TNum _ | TString | TSlice _ | TMap _ _ | TIface => true
+  | TPtr (TStruct _) => negb nn                          (* the zero value is a nil pointer to a struct *)
+  | TPtr _ => true
+  | _ => false
+  end.
+
+(* a declared non-struct type, `type MyInt int` (finding C03-named-int) *)
+Definition is_declared (t : ty) : bool := match t with TNamed _ _ => true | _ => false end.
 
 Definition sc_unary (op : unop) (t : ty) : bool :=
   match op with
@@ -141,14 +157,14 @@ Definition sc_unary (op : unop) (t : ty) : bool :=
 Definition sc_binary (op : binop) (l r : ty) : bool :=
   match op with
   | BOrWord | BOrOr | BAndWord | BAndAnd => s_bool l && s_bool r
-  | BEq | BNe => s_pair l r
+  | BEq | BNe => negb (is_declared l) && negb (is_declared r)   (* any two well-formed values compare *)
   | BLt | BGt | BGe | BLe | BAdd => (s_num l && s_num r) || (s_str l && s_str r)
   | BSub | BMul | BDiv | BPow => s_num l && s_num r
   | BMod | BRange => s_int l && s_int r
   | BContains | BStartsWith | BEndsWith => s_str l && s_str r
   | BIn | BNotIn =>
       match r with
-      | TSlice e => s_pair e l
+      | TSlice _ => true
       | TMap kt _ => s_key kt && ty_eqb l kt                 (* not: finding C03-index-key-type *)
       | TStruct _ => s_str l
       | TPtr (TStruct _) => s_str l
@@ -158,22 +174,24 @@ Definition sc_binary (op : binop) (l r : ty) : bool :=
   end.
 
 (* not: findings C03-nilsafe-on-slice, C03-index-key-type (m.name on a map with other keys),
-   C16 member findings (unexported / doubly provided member); pointer receivers are excluded
-   because of the nil pointer (fetch reports "cannot fetch" for it) *)
-Definition sc_property (te : tenv) (t : ty) (name : string) : bool :=
+   C16 member findings (unexported / doubly provided member).  t is the receiver type T or *T of
+   struct sn *)
+Definition sc_member (te : tenv) (sn : string) (t : ty) (name : string) : bool :=
+  fuel_ok te (fuel0 te) t && negb (emb_multi te (fuel0 te) t name) && negb (unexported_member te sn name)
+  && match field_type te (fuel0 te) t name with LFound _ => true | _ => false end.
+
+Definition sc_property (te : tenv) (nn : bool) (t : ty) (name : string) : bool :=
   match t with
-  | TStruct sn =>
-      fuel_ok te (fuel0 te) (TStruct sn) && negb (emb_multi te (fuel0 te) (TStruct sn) name)
-      && negb (unexported_member te sn name)
-      && match field_type te (fuel0 te) (TStruct sn) name with LFound _ => true | _ => false end
-  | TMap kt et => s_str kt && zero_ok et
+  | TStruct sn => sc_member te sn t name
+  | TPtr (TStruct sn) => nn && sc_member te sn t name        (* a nil receiver: "cannot fetch" *)
+  | TMap kt et => s_str kt && zero_ok nn et
   | _ => false
   end.
 
-Definition sc_index (t ti : ty) : bool :=
+Definition sc_index (nn : bool) (t ti : ty) : bool :=
   match t with
   | TSlice _ => s_int ti                                     (* not: C03-index-key-type *)
-  | TMap kt et => s_key kt && ty_eqb ti kt && zero_ok et
+  | TMap kt et => s_key kt && ty_eqb ti kt && zero_ok nn et
   | _ => false
   end.
 
@@ -220,6 +238,7 @@ Definition sc_closure (b : builtin) (el tb : ty) : bool :=
 
 Section Scope.
 Variable c : cconfig.
+Variable nn : bool.
 
 Definition tyof (cols : list ty) (x : expr) : ty := fst (fst (visit c cols x None)).
 
@@ -254,8 +273,8 @@ Fixpoint scope (cols : list ty) (e : expr) {struct e} : bool :=
   | EBinary _ op l r =>
       scope cols l && scope cols r && no_overload op && sc_binary op (tyof cols l) (tyof cols r)
   | EMatches _ _ l r => scope cols l && scope cols r && s_str (tyof cols l) && s_str (tyof cols r)
-  | EProperty _ x name _ => scope cols x && sc_property (cc_te c) (tyof cols x) name
-  | EIndex _ x i => scope cols x && scope cols i && sc_index (tyof cols x) (tyof cols i)
+  | EProperty _ x name _ => scope cols x && sc_property (cc_te c) nn (tyof cols x) name
+  | EIndex _ x i => scope cols x && scope cols i && sc_index nn (tyof cols x) (tyof cols i)
   | ESlice _ x f u =>
       scope cols x && sc_sliceable (tyof cols x)
       && match f with Some y => scope cols y && s_int (tyof cols y) | None => true end
@@ -265,6 +284,12 @@ Fixpoint scope (cols : list ty) (e : expr) {struct e} : bool :=
       match tyof cols x with
       | TStruct sn =>
           match method_by_name (cc_te c) (TStruct sn) name with
+          | Some (TFunc ins v [o]) => sc_sig ins v true && sargs (param_ty ins v true) 0%nat args
+          | _ => false
+          end
+      | TPtr (TStruct sn) =>                                 (* a nil receiver: not a value reason *)
+          nn &&
+          match method_by_name (cc_te c) (TPtr (TStruct sn)) name with
           | Some (TFunc ins v [o]) => sc_sig ins v true && sargs (param_ty ins v true) 0%nat args
           | _ => false
           end
@@ -314,4 +339,3 @@ Definition cast_of (k : option rkind) : cast :=
   | _ => CastNone
   end.
 
-Definition is_declared (t : ty) : bool := match t with TNamed _ _ => true | _ => false end.
